@@ -62,7 +62,13 @@ CASES: List[Tuple[str, bool, str, str]] = [
     ("unpacked-default-list-or-tuple", True,
      "def f(spec):\n    (vy, w) = resolve1(spec.get('DW2', [880, -1000]))\n    return (vy, w)\n",
      "def f(spec):\n    (vy, w) = resolve1(spec.get('DW2', (880, -1000)))\n    return (vy, w)\n"),
+    ("interned-keyword-constant-or-call", True,
+     "class A:\n    K_OBJ = KWD(b'obj')\n    def f(self, t):\n        if t is KWD(b'obj'):\n            return 1\n        return 0\n",
+     "class A:\n    K_OBJ = KWD(b'obj')\n    def f(self, t):\n        if t is self.K_OBJ:\n            return 1\n        return 0\n"),
     # ------------------------------------------------------------------ must stay different
+    ("other-interned-keyword", False,
+     "class A:\n    K_OBJ = KWD(b'obj')\n    K_END = KWD(b'endobj')\n    def f(self, t):\n        if t is KWD(b'obj'):\n            return 1\n        return 0\n",
+     "class A:\n    K_OBJ = KWD(b'obj')\n    K_END = KWD(b'endobj')\n    def f(self, t):\n        if t is self.K_END:\n            return 1\n        return 0\n"),
     ("ranges-that-meet-are-not-exclusive", False,
      "def f(n, out, it):\n    if n >= 0 and n <= 128:\n        out.append(next(it))\n    if n >= 128:\n        out.extend(it)\n",
      "def f(n, out, it):\n    if 0 <= n <= 128:\n        out.append(next(it))\n    elif n >= 128:\n        out.extend(it)\n"),
@@ -138,6 +144,8 @@ def _nf(src: str, other: str, key: str) -> str:
     ct, oct_ = equiv.const_table(tree), equiv.const_table(otree)
     helpers = {k: v[0] for k, v in ft.items() if k not in oft}
     consts = {k: v for k, v in ct.items() if k not in oct_}
+    dummy: Dict[str, ast.expr] = {}
+    equiv._add_interned(tree, otree, consts, dummy)
     node, _, cls = ft[key]
     return equiv.normal_form(node, equiv.Ctx(helpers, consts, cls, set(ft)))
 
